@@ -58,11 +58,14 @@ pub struct Ctx {
     pub events: u64,
     /// outcome class a model scenario prescribes for the next Issue / Present call ("" = none)
     pub hexpect: String,
+    /// mock_salts build: the salt queue the driver filled for the next Issue call, and a pair id for reproducibility runs
+    pub mock_queue: Vec<String>,
+    pub mock_pair: u64,
 }
 impl Ctx {
     pub fn new(path: &str) -> Ctx {
         std::panic::set_hook(Box::new(|_| {}));
-        Ctx { out: std::io::BufWriter::new(std::fs::File::create(path).expect("trace file")), case: 0, events: 0, hexpect: String::new() }
+        Ctx { out: std::io::BufWriter::new(std::fs::File::create(path).expect("trace file")), case: 0, events: 0, hexpect: String::new(), mock_queue: vec![], mock_pair: 0 }
     }
     pub fn emit(&mut self, line: String) {
         self.events += 1;
@@ -147,12 +150,25 @@ pub fn issue(ctx: &mut Ctx, issuer: &mut SDJWTIssuer, a: &IssueArgs) -> Out<Stri
     let jwk = a.hk.and_then(keys::jwk);
     let fmt = a.fmt.lib();
     let decoy = a.decoy;
+    #[cfg(feature = "mock")]
+    let before = {
+        let mut q = sd_jwt_rs::utils::SALTS.lock().unwrap();
+        q.clear();
+        q.extend(ctx.mock_queue.iter().cloned());
+        q.len()
+    };
     let res = guard(|| issuer.issue_sd_jwt(claims, strat, jwk, decoy, fmt));
+    #[cfg(feature = "mock")]
+    let consumed = before - sd_jwt_rs::utils::SALTS.lock().map(|q| q.len()).unwrap_or(0);
+    #[cfg(not(feature = "mock"))]
+    let consumed = -1i64;
     let mut extra = vec![];
     if let Out::Ok(s) = &res {
         extra.push(("msg", msg::msg_json_raw(s, a.fmt)));
         let sig = msg::split(s, a.fmt).map(|m| sig_ok(&m.jwt, &keys::dec(a.key), a.alg)).unwrap_or(false);
         extra.push(("sigok", sig.to_string()));
+        // the payload part as text (byte identity of the payload in the deterministic-salt build)
+        extra.push(("plb64", qs(msg::split(s, a.fmt).map(|m| m.jwt.split('.').nth(1).unwrap_or("").to_string()).unwrap_or_default().as_str())));
     }
     let line = obj(&[
         ("ev", qs("Issue")),
@@ -166,6 +182,9 @@ pub fn issue(ctx: &mut Ctx, issuer: &mut SDJWTIssuer, a: &IssueArgs) -> Out<Stri
         ("decoy", a.decoy.to_string()),
         ("fmt", qs(a.fmt.name())),
         ("hexpect", qs(&std::mem::take(&mut ctx.hexpect))),
+        ("queue", arr(&ctx.mock_queue.iter().map(|s| qs(s)).collect::<Vec<_>>())),
+        ("consumed", consumed.to_string()),
+        ("mockpair", ctx.mock_pair.to_string()),
         ("out", out_json(&res, extra)),
     ]);
     ctx.emit(line);
